@@ -1268,6 +1268,13 @@ M('sweep11.template.literal_eq_self', ['C16'], 'core/src/template.rs',
   '            return a == b;',
   '            return a == a;', 'C16.R1h:literal-fast-path')
 
+# ---- reverse patch of fix 95227de (D29: an overflowing integer sum becomes +Infinity) -----------------------------------------------------
+M("C13.rev_fix_sum_overflow_infinity", ["C13"], "emitter/otlp/src/data/metrics.rs",
+  """                .unwrap_or(NumberDataPointValue::AsDouble(AsDouble(
+                    current as f64 + value as f64,
+                ))),""",
+  """                .unwrap_or(NumberDataPointValue::AsDouble(AsDouble(f64::INFINITY))),""", "C13.R8:sum-accumulates")
+
 # ---- round 6 (own probing of the blocking entry points): Trigger, send_or_wait, callbacks ------------------------------------------
 M("C07.wait_zero_timeout_reports_flushed", ["C07"], "batcher/src/sync.rs",
   "            if timeout == Duration::ZERO {\n                return false;", "            if timeout == Duration::ZERO {\n                return true;", "C07.R4:Trigger")
